@@ -3,8 +3,8 @@
 Require Extraction.
 Require ExtrOcamlBasic.
 From Coq Require Import ZArith NArith.
-From GV Require Import Base.W64 Base.F64 Num.Model Num.Spec Num.Ops.
+From GV Require Import Base.W64 Base.F64 Num.Model Num.Spec Num.Ops Num.ForLoop.
 Extraction Language OCaml.
 Extraction "model.ml" Z.add N.add Nat.add Pos.add
   F64.of_bits F64.to_bits F64.go_f2i F64.of_int
-  Ops.eval_im Ops.eval_s.
+  Ops.eval_im Ops.eval_s ForLoop.for_im ForLoop.for_s.
